@@ -25,4 +25,12 @@ def dateInOfSerial (x : Rat) (date1904 : Bool) (loc0 loc1 : Str → Locale) : Da
   { t0 := timeFOfInstant t date1904, t1 := timeFOfInstant (t + nsPerSec) date1904, hour1900 := 0,
     loc0 := loc0, loc1 := loc1 }
 
+/-- Options.LongDatePattern / LongTimePattern (tokenised by nfp): the nested `format` call of
+currencyLanguageHandler runs on the same value, cell type and date system with both patterns cleared -/
+def applyOptions (d : DateIn) (longDate longTime : Option (List Sec)) (value : Str) (cellNumeric : Bool)
+    (n : NumIn) : DateIn :=
+  let d0 : DateIn := { d with sysDate := none, sysTime := none }
+  { d0 with sysDate := longDate.map fun secs => format secs value cellNumeric n d0,
+            sysTime := longTime.map fun secs => format secs value cellNumeric n d0 }
+
 end XlModel.NumFmt
